@@ -672,12 +672,115 @@ def hir_kind(node, kind):
 _loaded = {}
 
 
+CURRENT = None     # the facts most recently loaded (for helpers that are handed a Fn only)
+
+
 def load(repo=REPO, features=None, tag="ws"):
+    global CURRENT
     key = (repo, tag)
     if key not in _loaded:
         d = extract(repo, features=features, tag=tag)
         _loaded[key] = Facts(d)
+    CURRENT = _loaded[key]
     return _loaded[key]
+
+
+def subst_ap(ap, argmap):
+    """Replace the parameters of a callee in one of its access paths by the caller's access paths of the arguments."""
+    root, projs = ap
+    k = root[0]
+    if k == "arg":
+        base = argmap.get(root[1])
+        return ap if base is None else (base[0], base[1] + projs)
+    if k in ("call", "agg"):
+        return ((k, root[1], tuple(subst_ap(a, argmap) for a in root[2]), root[3]), projs)
+    if k == "binop":
+        return (("binop", root[1], subst_ap(root[2], argmap), subst_ap(root[3], argmap)), projs)
+    if k == "unop":
+        return (("unop", root[1], subst_ap(root[2], argmap)), projs)
+    if k == "cast":
+        return (("cast", root[1], subst_ap(root[2], argmap), root[3]), projs)
+    if k == "discr":
+        return (("discr", subst_ap(root[1], argmap)), projs)
+    return ap
+
+
+def ap_match(a, b):
+    """Equality of access paths up to the depth at which they were cut off: a `('local', n)` leaf stands for an expression that
+    was not followed any further, and matches whatever the other side has there."""
+    if a == b:
+        return True
+    if not (isinstance(a, tuple) and isinstance(b, tuple)):
+        return False
+    if len(a) == 2 and isinstance(a[0], tuple) and a[0] and isinstance(a[0][0], str):
+        # an access path (root, projs)
+        if not (len(b) == 2 and isinstance(b[0], tuple) and b[0] and isinstance(b[0][0], str)):
+            return False
+        if a[0][0] == "local" and not a[1] or b[0][0] == "local" and not b[1]:
+            return True
+        return a[1] == b[1] and ap_match(a[0], b[0])
+    if len(a) != len(b):
+        return False
+    for x, y in zip(a, b):
+        if isinstance(x, tuple) and isinstance(y, tuple):
+            if not ap_match(x, y):
+                return False
+        elif x != y:
+            # the block a call was made in is not part of what was computed
+            if isinstance(x, int) and isinstance(y, int) and a and a[0] in ("call", "agg"):
+                continue
+            return False
+    return True
+
+
+def private_helper(F, crate, name):
+    """The function `name` of `crate` if it is a private free function or inherent method (what `extract function` produces)."""
+    idx = F.__dict__.setdefault("_by_path", {})
+    if crate not in idx:
+        idx[crate] = {}
+        for g in F.by_crate[crate]:
+            idx[crate].setdefault(g.path, []).append(g)
+    gs = idx[crate].get(name, [])
+    if len(gs) != 1:
+        return None
+    g = gs[0]
+    if g.raw.get("public") or g.raw.get("impl_trait") or "{closure" in g.path:
+        return None
+    return g
+
+
+def straight_line(fn):
+    """No branch outside cleanup blocks: the function is one expression of its parameters."""
+    return not any(b["term"]["k"] == "switch" for b in fn.blocks if not b["cleanup"])
+
+
+def expand_ap(F, crate, ap, depth=3):
+    """Access path with the calls of private straight-line helpers replaced by what they return (`fn radian() -> Dimensionality
+    { Dimensionality::base_unit(BaseUnit::new("radian")) }`): a rule that recognises an expression keeps recognising it after
+    the expression has been given a name."""
+    root, projs = ap
+    k = root[0]
+    if k == "call":
+        args = tuple(expand_ap(F, crate, a, depth) for a in root[2])
+        g = private_helper(F, crate, root[1]) if depth > 0 else None
+        if g is not None and straight_line(g) and len(args) == g.raw["arg_count"]:
+            ret = g.apath_place({"l": 0, "p": [], "ty": ""})
+            if ret[0][0] not in ("local", "unknown", "rv"):
+                ret = subst_ap(ret, {i + 1: a for i, a in enumerate(args)})
+                ret = expand_ap(F, crate, ret, depth - 1)
+                return (ret[0], ret[1] + projs)
+        return (("call", root[1], args, root[3]), projs)
+    if k == "agg":
+        return (("agg", root[1], tuple(expand_ap(F, crate, a, depth) for a in root[2]), root[3]), projs)
+    if k == "binop":
+        return (("binop", root[1], expand_ap(F, crate, root[2], depth), expand_ap(F, crate, root[3], depth)), projs)
+    if k == "unop":
+        return (("unop", root[1], expand_ap(F, crate, root[2], depth)), projs)
+    if k == "cast":
+        return (("cast", root[1], expand_ap(F, crate, root[2], depth), root[3]), projs)
+    if k == "discr":
+        return (("discr", expand_ap(F, crate, root[1], depth)), projs)
+    return ap
 
 
 def ap_str(ap):
